@@ -194,8 +194,8 @@ theorem consistent_if_accepted (o : Oracles) (file : Bytes) (k : PrivKey) (c : B
         · exact (privBlock_outer _ _ _ _ _ _ h).symm
 
 /-- … and the same for ParseRawPrivateKeyWithPassphrase -/
-theorem consistent_if_accepted_pass (o : Oracles) (file : Bytes) (k : PrivKey) (c : Bytes)
-    (h : parseWithPass o file = .ok k c) :
+theorem consistent_if_accepted_pass (o : Oracles) (pw file : Bytes) (k : PrivKey) (c : Bytes)
+    (h : parseWithPass o pw file = .ok k c) :
     ∃ w, parseContainer file = some w ∧ w.pubKey = k.pub.marshal := by
   unfold parseWithPass at h
   cases hw : parseContainer file with
@@ -205,14 +205,16 @@ theorem consistent_if_accepted_pass (o : Oracles) (file : Bytes) (k : PrivKey) (
     simp only at h
     refine ⟨w, rfl, ?_⟩
     repeat (split at h; (· cases h))
-    · cases h
-    · split at h
-      · exact (privBlock_outer _ _ _ _ _ _ h).symm
-      · split at h
-        · split at h
-          · cases h
-          · exact (privBlock_outer _ _ _ _ _ _ h).symm
-        · cases h
+    -- the three outcomes of bcrypt_pbkdf.Key: ok / err / panic
+    all_goals first
+      | cases h
+      | (repeat (split at h; (· cases h))
+         all_goals first
+           | cases h
+           | exact (privBlock_outer _ _ _ _ _ _ h).symm
+           | (split at h
+              · cases h
+              · exact (privBlock_outer _ _ _ _ _ _ h).symm))
 
 /-! ## regression witnesses of the two former defects -/
 
